@@ -99,11 +99,15 @@ Definition pp_grant_access (cx : ctx) (W : world) : result world :=
   '(ck, c, sentinel, ms) <- pp_verified (cx_metas cx) false PASentinel W ;;
   _ <- require (negb (pc_paused c)) EInvalidAccountData ;;
   '(rk, r, ms) <- pp_zc_request ms W ;;
+  (* the request's lamports stay mutably borrowed until the end: touching the same account through another
+     AccountInfo (sentinel or beneficiary aliasing the request) is a RefCell double borrow, i.e. a panic *)
+  _ <- require (negb (key_eqb sentinel rk)) EAccountBorrowFailed ;;
   let fee := ar_fee r in
   let bal := lamports (get W rk) in
   let refund := bal - fee in                                   (* saturating_sub *)
   '(ben, ms) <- next_any ms W ;;
   _ <- require (key_eqb (mkey ben) (ar_beneficiary r)) EInvalidAccountData ;;
+  _ <- require (negb (key_eqb (mkey ben) rk)) EAccountBorrowFailed ;;
   (* lamport moves; the request account's balance is set to zero last *)
   W <- set_lamports_to_zero cx W rk ;;
   W <- credit cx W sentinel fee ;;
@@ -113,6 +117,7 @@ Definition pp_deny_access (cx : ctx) (W : world) : result world :=
   '(ck, c, sentinel, ms) <- pp_verified (cx_metas cx) false PASentinel W ;;
   _ <- require (negb (pc_paused c)) EInvalidAccountData ;;
   '(rk, r, ms) <- pp_zc_request ms W ;;
+  _ <- require (negb (key_eqb sentinel rk)) EAccountBorrowFailed ;;
   let bal := lamports (get W rk) in
   W <- set_lamports_to_zero cx W rk ;;
   credit cx W sentinel bal.
